@@ -653,10 +653,12 @@ class WorkTree:
             # Create a dangling commit
             c.parents = list(merge_heads)
         else:
+            old_head: ObjectID | None
             try:
                 old_head = self._repo.refs[ref]
                 c.parents = [old_head, *merge_heads]
             except KeyError:
+                old_head = None
                 c.parents = list(merge_heads)
 
         # Handle message after parents are set
@@ -725,8 +727,10 @@ class WorkTree:
                 c.gpgsig = vendor.sign(c.as_raw_string(), keyid=keyid)
             self._repo.object_store.add_object(c)
         else:
-            try:
-                old_head = self._repo.refs[ref]
+            # Condition the ref update on the value the parents were taken
+            # from. Re-reading the ref here would silently drop a commit that
+            # another process made in the meantime.
+            if old_head is not None:
                 if should_sign:
                     from dulwich.signature import get_signature_vendor
 
@@ -747,8 +751,7 @@ class WorkTree:
                     else None,
                     timezone=commit_timezone,
                 )
-            except KeyError:
-                c.parents = list(merge_heads)
+            else:
                 if should_sign:
                     from dulwich.signature import get_signature_vendor
 
